@@ -102,6 +102,11 @@ class World:
             scen['wait_before'] = rng.choice([0, 0.3, 0.3])
             scen['chunk'] = None
             scen['callers'] = [[['comm'] for _ in ops] for ops in callers]
+        if scen['fault'] == 'disconnect-idle' and rng.random() < 0.6:
+            # the device closes the connection a little after the LAST command of the run: nobody is talking to it when the
+            # connection ends, the loss is met by the probe that follows the quiet period (line and byte communicators alike)
+            scen['callers'] = [[['comm'] for _ in ops] for ops in scen['callers']]
+            scen['fault_at'] = sum(len(ops) for ops in scen['callers']) - 1
         if rng.random() < 0.12:
             # an outage with callers that keep calling: the device drops early, reconnects take a while and include an
             # identification exchange, 3..4 callers issue 4..6 single commands spread over the following seconds
